@@ -244,7 +244,7 @@ def check_path(d, SVGPath, want_states=None):
         p.as_cmd_seq()
         p.bounding_box()
         msgs = []
-        for step in ("relative", "explicit_lines", "expand_shorthand", "absolute", "arcs_to_cubics"):
+        for step in ("relative", "arcs_to_cubics"):
             getattr(p, step)(inplace=True)
             seen = SVGPath.from_commands(p.as_cmd_seq()).d
             why = R1.compare_curves(R1.interpret_string(p.d), R1.interpret_string(seen), tol, tol_arc) if p.d else None
